@@ -9,7 +9,8 @@
 (*            m_bufferRemaining < 2], writeNumericCharacterReference [m_bufferRemaining < length], strings       *)
 (*            unit by unit                                                                                       *)
 (*   "legacy" XMLSupport/FormatterToXML.cpp    accumCharUTF / accumContentAsChar: m_charBuf[m_pos++] = ch;       *)
-(*            if (m_pos == s_maxBufferSize) flushChars()                                                         *)
+(*            if (m_pos == s_maxBufferSize) flushChars(); flushChars() keeps the last unit of a FULL buffer      *)
+(*            back when it is the first half of a surrogate pair (fix legacySurrogatePairSplitHangs)             *)
 (* and, behind the UTF-16 producing families, the second stage                                                  *)
 (*   PlatformSupport/XalanOutputStream.cpp  write(const XalanDOMChar*, n): flushBuffer() if it does not fit,    *)
 (*            doWrite() directly if n > m_bufferSize, else append; flushBuffer() -> doWrite() -> transcode()     *)
@@ -50,8 +51,13 @@ WriteAtomic(w, us) == Store(IF w.rem < Len(us) THEN Flush(w) ELSE w, us)
 (* write(const value_type*, n) of the UTF-8 / UTF-16 writers *)
 WriteString(w, us) == IF Len(us) > BufSize THEN Direct(Flush(w), us)
                       ELSE Store(IF w.rem < Len(us) THEN Flush(w) ELSE w, us)
-(* FormatterToXML::accumChar*: store, then flush when full *)
-Accum(w, u) == LET s == Store(w, <<u>>) IN IF Len(s.buf) = BufSize THEN Flush(s) ELSE s
+(* FormatterToXML::accumChar*: store, then flushChars() when full: a full buffer that ends in the first half of a  *)
+(* surrogate pair (<<1, 2>>) is written without that unit, which moves to the front of the buffer                  *)
+FlushChars(s) == LET n == Len(s.buf) IN
+                 IF n = BufSize /\ s.buf[n] = <<1, 2>>
+                 THEN W(<<s.buf[n]>>, BufSize - 1, Append(s.fl, SubSeq(s.buf, 1, n - 1)))
+                 ELSE Flush(s)
+Accum(w, u) == LET s == Store(w, <<u>>) IN IF Len(s.buf) = BufSize THEN FlushChars(s) ELSE s
 RECURSIVE AccumAll(_, _)
 AccumAll(w, us) == IF us = <<>> THEN w ELSE AccumAll(Accum(w, us[1]), Tail(us))
 
@@ -90,11 +96,10 @@ Concat(cs) == IF cs = <<>> THEN <<>> ELSE cs[1] \o Concat(Tail(cs))
 Whole(c) == c = <<>> \/ (c[1][1] <= 1 /\ c[Len(c)][1] = c[Len(c)][2])
 
 (* ---- known deviations -------------------------------------------------------------------------------- *)
-(* the UTF-16 writer and the legacy serializer buffer unit by unit: a surrogate pair (legacy: also a numeric   *)
-(* character reference) can straddle two flushes.  For "utf16" the stream copies the units through, so the     *)
-(* bytes are right; for "legacy" the transcoder receives half a pair (known_findings: legacySurrogatePairSplit)  *)
+(* the UTF-16 writer buffers unit by unit: a surrogate pair can straddle two flushes.  The stream copies UTF-16 *)
+(* units through, so the bytes are right.  (The legacy serializer had the same flaw in front of a transcoder:   *)
+(* legacySurrogatePairSplitHangs, repaired - FlushChars above.)                                                *)
 KD_unitwiseFlush(fam, w0, op) ==
-  /\ fam \in {"utf16", "legacy"} /\ op.k \in {"ch", "ref"} /\ op.n > 1
-  /\ IF fam = "utf16" THEN w0.rem > 0 /\ w0.rem < op.n
-     ELSE BufSize - Len(w0.buf) < op.n
+  /\ fam = "utf16" /\ op.k \in {"ch", "ref"} /\ op.n > 1
+  /\ w0.rem > 0 /\ w0.rem < op.n
 =============================================================================
